@@ -746,7 +746,7 @@ def split_inline_box(context, box, position_x, max_x, bottom_space, skip_stack,
             last_letter = ' '
         elif last_letter is False:
             last_letter = ' '  # no-break space
-        elif box.style['white_space'] in ('pre', 'nowrap'):
+        if box.style['white_space'] in ('pre', 'nowrap'):
             can_break = False
         if can_break is None:
             if None in (last_letter, first):
